@@ -72,6 +72,7 @@ func Format(input []byte) []byte {
 		tokenEnded bool // whether previous char closed a quoted segment (the lexer starts a new token right after it)
 
 		heredoc              heredocState // whether we're in a heredoc
+		heredocStart         bool         // whether the previous character was a '<' that begins a token
 		heredocEscaped       bool         // whether heredoc is escaped
 		heredocMarker        []rune
 		heredocClosingMarker []rune
@@ -105,11 +106,14 @@ func Format(input []byte) []byte {
 		}
 		// detect whether we have the start of a heredoc
 		if !quoted && !(heredoc != heredocClosed || heredocEscaped) &&
-			space && last == '<' && ch == '<' {
+			heredocStart && ch == '<' {
 			write(ch)
 			heredoc = heredocOpening
-			space = false
+			heredocStart = false
 			continue
+		}
+		if ch != '\r' { // CR is ignored altogether
+			heredocStart = false
 		}
 
 		if heredoc == heredocOpening {
@@ -119,13 +123,18 @@ func Format(input []byte) []byte {
 				} else {
 					heredocMarker = nil
 					heredoc = heredocClosed
+					space = true
 					nextLine()
 					continue
 				}
 				write(ch)
 				continue
 			}
-			if unicode.IsSpace(ch) {
+			// skip CR, we only care about LF
+			if ch == '\r' {
+				continue
+			}
+			if ch == ' ' {
 				// a space means it's just a regular token and not a heredoc
 				heredocMarker = nil
 				heredoc = heredocClosed
@@ -153,10 +162,6 @@ func Format(input []byte) []byte {
 				}
 				continue
 			}
-		}
-
-		if last == '<' && space {
-			space = false
 		}
 
 		if comment {
@@ -322,8 +327,8 @@ func Format(input []byte) []byte {
 			openBraceWritten = true
 		}
 
-		if spacePrior && ch == '<' {
-			space = true
+		if tokenStart && ch == '<' {
+			heredocStart = true
 		}
 
 		write(ch)
